@@ -665,7 +665,7 @@ class KeychainSqlite3(Keychain):
         :type name: :any:`NonStrictName`
         """
         formal_name = Name.normalize(name)
-        name = Name.to_bytes(name)
+        name = Name.to_bytes(formal_name)  # (the argument may be a one-shot iterator: read it once)
         id_name = formal_name[:-2]
         key = self[id_name][formal_name]
         # Remove the private key first: if that fails, nothing has changed and the call can be repeated;
